@@ -43,6 +43,9 @@ def configs(tier):
                     out.append(dict(entry='fast_nonMarkov_SIS', graph=g, I0=I0, R0=[], full=full, form=form, tmax='sym',
                                     max_infections=3 if tier == 'quick' else 4, delays_per_pair=2 if g == 'K2' or tier == 'thorough' else 1,
                                     tags=[g, form, 'full' if full else 'plain']))
+                    if g == 'K2' and full:
+                        out.append(dict(entry='fast_nonMarkov_SIS', graph=g, I0=I0, R0=[], full=full, form=form, tmax='sym', fxn_args=True,
+                                        max_infections=3, delays_per_pair=1, tags=[g, form, 'fxn-args']))
     return out
 
 
@@ -98,6 +101,15 @@ def run_path(h, cfg):
         kw.update(trans_time_fxn=trans_time_fxn, rec_time_fxn=rec_time_fxn)
     else:
         kw['trans_and_rec_time_fxn'] = joint
+    if cfg.get('fxn_args'):
+        # each user function is given its own tuple of extra arguments and checks that it receives exactly that one
+        if cfg['form'] == 'separate':
+            kw.update(trans_time_fxn=simruns.expecting(trans_time_fxn, 3, simruns.TRANS_ARGS, 'trans_time_fxn'),
+                      rec_time_fxn=simruns.expecting(rec_time_fxn, 1, simruns.REC_ARGS, 'rec_time_fxn'),
+                      trans_time_args=simruns.TRANS_ARGS, rec_time_args=simruns.REC_ARGS)
+        else:
+            kw.update(trans_and_rec_time_fxn=simruns.expecting(joint, 2, simruns.JOINT_ARGS, 'trans_and_rec_time_fxn'),
+                      trans_and_rec_time_args=simruns.JOINT_ARGS)
     ret = simruns.check_shape(h, r, h.call_must_succeed('no-exception', r.EoN.fast_nonMarkov_SIS, r.G, **kw))
     if ret is None:
         return None
